@@ -27,6 +27,31 @@ func gateCall(name string, ins []tensor.Tensor) (out string) {
 			return "GOChanged"
 		}
 	}
+	// ... on an instance that was INITIALISED with the attributes of each of the operator's fixtures (the gate
+	// is a property of the operator, not of a node's attributes) ...
+	for _, fx := range gateFixtures[name] {
+		if inited := gateOnceInit(name, ins, fx); inited != "" && inited != fresh {
+			return "GOChanged"
+		}
+	}
+	// ... and directly after a REJECTED gate call on another operator (what one call leaves behind -- a
+	// recycled lookup table, say -- may not widen the next)
+	for _, pol := range [][2]interface{}{{"Relu", tensor.Int32}, {"Not", tensor.Float32}, {"Gather", tensor.Float64}, {"Cast", tensor.Bool}} {
+		func() {
+			defer func() { recover() }()
+			if o, err := opset13.GetOperator(pol[0].(string)); err == nil {
+				d := pol[1].(tensor.Dtype)
+				bad := []tensor.Tensor{tensor.New(tensor.Of(d), tensor.WithShape(1)), tensor.New(tensor.Of(d), tensor.WithShape(1))}
+				if pol[0] != "Gather" {
+					bad = bad[:1]
+				}
+				o.ValidateInputs(bad)
+			}
+		}()
+		if after := gateOnce(name, ins, 0, false); after != fresh {
+			return "GOChanged"
+		}
+	}
 	// the gate looks at presence and element type only: the same list with every tensor replaced by a
 	// tensor of the same element type and another shape (zero-size ones included) must be judged alike
 	for _, shp := range [][]int{{}, {0}, {2, 0}, {1, 1, 1, 1, 1, 2}} {
@@ -56,6 +81,61 @@ func gateCall(name string, ins []tensor.Tensor) (out string) {
 		}
 	}
 	return fresh
+}
+
+var gateFixtures = fixtures()
+
+// like gateOnce on an instance whose Init ran with a fixture's attributes; "" when Init refuses them
+func gateOnceInit(name string, ins []tensor.Tensor, fx fixture) (out string) {
+	defer func() {
+		if r := recover(); r != nil {
+			out = "GOPanic"
+		}
+	}()
+	op, err := opset13.GetOperator(name)
+	if err != nil {
+		return ""
+	}
+	if err := op.Init(&onnx.NodeProto{Attribute: fx.attrs, Output: append([]string{}, fx.outputs...)}); err != nil {
+		return ""
+	}
+	return classifyGate(op, ins)
+}
+
+func classifyGate(op ops.Operator, ins []tensor.Tensor) string {
+	given := append([]tensor.Tensor{}, ins...)
+	buf := make([]tensor.Tensor, len(ins))
+	copy(buf, ins)
+	res, err := op.ValidateInputs(buf)
+	if err != nil {
+		var ie *ops.InputError
+		if errors.As(err, &ie) {
+			msg := err.Error()
+			if strings.Contains(msg, "does not allow dtype") {
+				var p int
+				fmt.Sscanf(msg, "input %d", &p)
+				return fmt.Sprintf("(GOErrType %d)", p)
+			}
+			if strings.Contains(msg, "input tensors, got") {
+				return "GOErrCount"
+			}
+		}
+		return "GOErrOther"
+	}
+	if len(res) < len(given) {
+		return "GOChanged"
+	}
+	for i, t := range given {
+		if res[i] != t {
+			return "GOChanged"
+		}
+	}
+	for i := len(given); i < len(res); i++ {
+		if res[i] != nil {
+			return "GOChanged"
+		}
+	}
+	return fmt.Sprintf("(GOOkLen %d)", len(res))
 }
 
 func gateOnce(name string, ins []tensor.Tensor, longerFirst int, nilSlice bool) (out string) {
